@@ -67,7 +67,7 @@ def run(ctx):
         natc = dict(Seed=ctx.seed, Fams=q(["arith", "load"]), ModIdx=allm, BigFrom=16, NRnd=2, MaxOps=2, FullPairs="FALSE",
                     LoadLens=S([0, 1, 7, 8, 9, 31, 32, 33, 40, 64]))
     else:
-        natc = dict(Seed=ctx.seed, Fams=q(["arith", "load"]), ModIdx=allm, BigFrom=18, NRnd=8, MaxOps=3, FullPairs="TRUE", LoadLens=S(range(0, 82)))
+        natc = dict(Seed=ctx.seed, Fams=q(["arith", "load"]), ModIdx=allm, BigFrom=18, NRnd=8, MaxOps=2, FullPairs="TRUE", LoadLens=S(range(0, 82)))
     jobs.append(dict(module="MC_C05nat", name="MC_C05nat", view="View", workers=4 if quick else 8, timeout=3000, heap="4g",
                      constants=dict(natc, OutFile=core.tla_str(natout)), invariants=("Reduced",), properties=("InverseSound", "StepLaws")))
     # the limb-level field arithmetic underneath (assembly p256* primitives, fiat-crypto elements) on limb-structured residues
